@@ -6,7 +6,7 @@ use worterbuch::verif::Worterbuch;
 use worterbuch::Config;
 use worterbuch_common::{PStateEvent, Protocol, StateEvent, ValueEntry, error::WorterbuchError, ErrorCode};
 
-enum Rx {
+pub enum Rx {
     State(mpsc::Receiver<StateEvent>),
     PState(mpsc::Receiver<PStateEvent>),
     Ls(mpsc::Receiver<Vec<String>>),
@@ -28,14 +28,14 @@ fn names_tok(names: &[String]) -> String {
     format!("[{}]", items.join(";"))
 }
 
-struct Sess {
-    mem: std::collections::HashMap<(u64, String), u64>,
-    wb: Worterbuch,
-    rxs: Vec<Rx>,
-    reqs: Vec<Option<oneshot::Receiver<()>>>,
+pub struct Sess {
+    pub mem: std::collections::HashMap<(u64, String), u64>,
+    pub wb: Worterbuch,
+    pub rxs: Vec<Rx>,
+    pub reqs: Vec<Option<oneshot::Receiver<()>>>,
 }
 
-async fn exec(s: &mut Sess, line: &str) -> String {
+pub async fn exec(s: &mut Sess, line: &str) -> String {
     let t: Vec<&str> = line.split(' ').collect();
     let n = |i: usize| -> u64 { t[i].parse().expect("num") };
     let b = |i: usize| -> bool { t[i] == "1" };
@@ -211,7 +211,7 @@ async fn exec(s: &mut Sess, line: &str) -> String {
     }
 }
 
-fn drain(s: &mut Sess) -> String {
+pub fn drain(s: &mut Sess) -> String {
     let mut evs: Vec<String> = vec![];
     let mut lss: Vec<String> = vec![];
     for (i, rx) in s.rxs.iter_mut().enumerate() {
